@@ -84,8 +84,25 @@ func runC15(r *ev.Run) {
 		nlist := 0
 		switch j.kind {
 		case "hnsw":
+			// "default parameters": spelled out, or asked for by passing 0 ("pass 0 for default"), for all or some of them
 			m, efc, efs := comet.DefaultHNSWConfig()
-			idx, err = comet.NewHNSWIndex(D, j.metric, m, efc, efs)
+			var h *comet.HNSWIndex
+			switch (j.set + ci) % 4 {
+			case 0:
+				h, err = comet.NewHNSWIndex(D, j.metric, m, efc, efs)
+			case 1:
+				h, err = comet.NewHNSWIndex(D, j.metric, 0, 0, 0)
+			case 2:
+				h, err = comet.NewHNSWIndex(D, j.metric, m, 0, 0)
+			default:
+				h, err = comet.NewHNSWIndex(D, j.metric, 0, efc, 0)
+			}
+			if err == nil {
+				if g := comet.VerifHNSWGraph(h); g.M != m || g.EfConstruction != efc || g.EfSearch != efs {
+					fail("recall.hnsw.defaults-not-applied", fmt.Sprintf("constructor variant %d: M=%d efConstruction=%d efSearch=%d, documented defaults %d/%d/%d", (j.set+ci)%4, g.M, g.EfConstruction, g.EfSearch, m, efc, efs))
+				}
+				idx = h
+			}
 		case "ivf":
 			nlist = []int{16, 32, 64}[j.set%3]
 			idx, err = comet.NewIVFIndex(D, nlist, j.metric)
